@@ -160,6 +160,339 @@ theorem walk_reaches (root : GNode) (hroot : root.name ≠ []) (hu : Unambiguous
   exact walk_chain root prog root (mangle root.name) hm (caseTable root) hu
     (fun e he => (mem_sortBy _ _ e).2 he) chain hch ws hsp
 
+/-! #### the arm the dispatch lands in lists the addressed level -/
+
+/-- `join("__")` -/
+def joinUu : List Bytes → Bytes
+  | [] => []
+  | [n] => n
+  | n :: m :: r => n ++ uu ++ joinUu (m :: r)
+
+/-- `join(" ")` (how `Command::_build_bin_names` forms bin names) -/
+def joinSp : List Bytes → Bytes
+  | [] => []
+  | [n] => n
+  | n :: m :: r => n ++ [32] ++ joinSp (m :: r)
+
+theorem splitUu_cons_ne (cur : Bytes) (b : UInt8) (r : Bytes) (hb : b ≠ 95) : splitUu cur (b :: r) = splitUu (cur ++ [b]) r := by
+  conv => lhs; unfold splitUu
+  split
+  · next h => simp at h
+  · next h => simp at h; exact absurd h.1 hb
+  · next h => simp at h; obtain ⟨rfl, rfl⟩ := h; rfl
+
+theorem splitUu_clean (n : Bytes) (hn : 95 ∉ n) (cur rest : Bytes) : splitUu cur (n ++ rest) = splitUu (cur ++ n) rest := by
+  induction n generalizing cur with
+  | nil => simp
+  | cons b r ih =>
+    have hb : b ≠ 95 := fun e => hn (e ▸ List.mem_cons_self)
+    have hr : 95 ∉ r := fun hm => hn (List.mem_cons_of_mem _ hm)
+    simp only [List.cons_append]
+    rw [splitUu_cons_ne cur b _ hb, ih hr]; simp
+
+theorem splitUu_sep (cur rest : Bytes) : splitUu cur (uu ++ rest) = cur :: splitUu [] rest := by
+  simp [uu, splitUu]
+
+/-- **`split("__")` undoes `join("__")`** when no segment contains an underscore -/
+theorem splitUu_joinUu (names : List Bytes) (hne : names ≠ []) (hc : ∀ n ∈ names, 95 ∉ n) :
+    splitUu [] (joinUu names) = names := by
+  induction names with
+  | nil => exact absurd rfl hne
+  | cons n r ih =>
+    cases r with
+    | nil =>
+      simp only [joinUu]
+      have := splitUu_clean n (hc n List.mem_cons_self) [] []
+      simp only [List.append_nil, List.nil_append] at this
+      rw [this]; simp [splitUu]
+    | cons m r' =>
+      simp only [joinUu]
+      rw [List.append_assoc, splitUu_clean n (hc n List.mem_cons_self), splitUu_sep]
+      simp only [List.nil_append]
+      rw [ih (by simp) (fun x hx => hc x (List.mem_cons_of_mem _ hx))]
+
+theorem replaceByte_append (c : UInt8) (rep a b : Bytes) : replaceByte c rep (a ++ b) = replaceByte c rep a ++ replaceByte c rep b := by
+  simp [replaceByte]
+
+theorem replaceByte_clean (c : UInt8) (rep n : Bytes) (hn : c ∉ n) : replaceByte c rep n = n := by
+  induction n with
+  | nil => rfl
+  | cons b r ih =>
+    have hb : (b == c) = false := by
+      have : b ≠ c := fun e => hn (e ▸ List.mem_cons_self)
+      simpa using this
+    simp only [replaceByte, List.flatMap_cons, hb, Bool.false_eq_true, ↓reduceIte] 
+    have := ih (fun hm => hn (List.mem_cons_of_mem _ hm))
+    simp only [replaceByte] at this
+    rw [this]; rfl
+
+/-- the bin name with spaces turned into `__` is the `__`-join of the names -/
+theorem spaceToUu_joinSp (names : List Bytes) (hc : ∀ n ∈ names, 32 ∉ n) : spaceToUu (joinSp names) = joinUu names := by
+  induction names with
+  | nil => rfl
+  | cons n r ih =>
+    cases r with
+    | nil => simp only [joinSp, joinUu, spaceToUu]; exact replaceByte_clean _ _ _ (hc n List.mem_cons_self)
+    | cons m r' =>
+      simp only [joinSp, joinUu, spaceToUu, replaceByte_append]
+      rw [replaceByte_clean _ _ _ (hc n List.mem_cons_self)]
+      have := ih (fun x hx => hc x (List.mem_cons_of_mem _ hx))
+      simp only [spaceToUu] at this
+      rw [this]
+      simp [replaceByte, uu]
+
+/-- along the chain every node is the FIRST child of its parent that answers to its name -/
+def FoundByName : GNode → List GNode → Prop
+  | _, [] => True
+  | n, c :: rest => (n.subs.find? fun x => x.names.contains c.name) = some c ∧ FoundByName c rest
+
+/-- `find_subcommand_with_path` follows the chain's names to its last node -/
+theorem findPath_chain (n : GNode) (chain : List GNode) (h : FoundByName n chain) :
+    findPath n (chain.map GNode.name) = some (chain.getLastD n) := by
+  induction chain generalizing n with
+  | nil => rfl
+  | cons c rest ih =>
+    simp only [FoundByName] at h
+    simp only [List.map_cons, findPath, h.1]
+    rw [ih c h.2]
+    cases rest <;> rfl
+
+/-- the `case "${cmd}"` arm the generator writes for one bin path; `none` = its path lookup panics -/
+def detailFor (root : GNode) (sc : Bytes) : Option Detail :=
+  (findPath root ((splitUu [] sc).drop 1)).map fun n =>
+    { label := mangle sc, level := (splitUu [] sc).length, words := levelWords n, valueOpts := n.valueOpts }
+
+/-- **the arm written for a chain of subcommands lists exactly that level**: its label is the mangled
+`__`-join of the names, its level the depth, its words the options and subcommands of the node - provided
+no name on the path contains `_` or a space and each node is found under its own name -/
+theorem arm_for_chain (root : GNode) (chain : List GNode) (hne : chain ≠ [])
+    (hclean : ∀ n ∈ root.name :: chain.map GNode.name, 95 ∉ n ∧ 32 ∉ n) (hf : FoundByName root chain) :
+    detailFor root (spaceToUu (joinSp (root.name :: chain.map GNode.name))) =
+      some { label := mangle (joinUu (root.name :: chain.map GNode.name)), level := chain.length + 1,
+             words := levelWords (chain.getLastD root), valueOpts := (chain.getLastD root).valueOpts } := by
+  unfold detailFor
+  rw [spaceToUu_joinSp _ (fun n hn => (hclean n hn).2), splitUu_joinUu _ (by simp) (fun n hn => (hclean n hn).1)]
+  simp only [List.drop_succ_cons, List.drop_zero, List.length_cons, List.length_map]
+  rw [findPath_chain root chain hf]
+  rfl
+
+/-! #### the generated function offers exactly the addressed level -/
+
+theorem mem_dedupAdj (l : List Bytes) (x : Bytes) : x ∈ dedupAdj l ↔ x ∈ l := by
+  induction l with
+  | nil => simp [dedupAdj]
+  | cons a r ih =>
+    cases r with
+    | nil => simp [dedupAdj]
+    | cons b r' =>
+      simp only [dedupAdj]
+      split
+      · next hab =>
+        have : a = b := by simpa using hab
+        subst this
+        rw [ih]; simp
+      · simp only [List.mem_cons, ih]
+
+/-- the bin name `_build_bin_names` gives the last node of a chain: parent's bin name, a space, the name -/
+def binOf (b : Bytes) : List GNode → Bytes
+  | [] => b
+  | c :: rest => binOf (b ++ [32] ++ c.name) rest
+
+theorem levelEntries_mem (bin : Bytes) (l : List GNode) (c : GNode) (hc : c ∈ l) :
+    (c.name, bin ++ [32] ++ c.name) ∈ levelEntries bin l := by
+  induction l with
+  | nil => simp at hc
+  | cons x xs ih =>
+    simp only [levelEntries]
+    rcases List.mem_cons.1 hc with rfl | h
+    · exact List.mem_append_left _ List.mem_cons_self
+    · exact List.mem_append_right _ (ih h)
+
+theorem allSubcommandsList_mem (bin : Bytes) (l : List GNode) (c : GNode) (hc : c ∈ l) (e : Bytes × Bytes)
+    (he : e ∈ allSubcommands (bin ++ [32] ++ c.name) c) : e ∈ allSubcommandsList bin l := by
+  induction l with
+  | nil => simp at hc
+  | cons x xs ih =>
+    simp only [allSubcommandsList]
+    rcases List.mem_cons.1 hc with rfl | h
+    · exact List.mem_append_left _ he
+    · exact List.mem_append_right _ (ih h)
+
+/-- utils `all_subcommands` lists the bin name of every chain of subcommands -/
+theorem allSubcommands_complete (bin : Bytes) (n : GNode) (pre : List GNode) (c : GNode) (hch : Chain n (pre ++ [c])) :
+    (c.name, binOf bin (pre ++ [c])) ∈ allSubcommands bin n := by
+  induction pre generalizing n bin with
+  | nil =>
+    cases hch with
+    | cons _ _ _ hmem _ =>
+      cases n with
+      | mk nm al o v subs =>
+        simp only [allSubcommands, binOf, List.nil_append]
+        exact List.mem_append_left _ (levelEntries_mem bin subs c hmem)
+  | cons p ps ih =>
+    cases hch with
+    | cons _ _ _ hmem hrest =>
+      cases n with
+      | mk nm al o v subs =>
+        simp only [allSubcommands, binOf, List.cons_append]
+        exact List.mem_append_right _ (allSubcommandsList_mem bin subs p hmem _ (ih _ p hrest))
+
+theorem binOf_joinSp (b : Bytes) (chain : List GNode) : binOf b chain = joinSp (b :: chain.map GNode.name) := by
+  induction chain generalizing b with
+  | nil => rfl
+  | cons c rest ih =>
+    simp only [binOf, List.map_cons]
+    rw [ih]
+    cases rest with
+    | nil => simp [joinSp]
+    | cons d r => simp [joinSp, List.append_assoc]
+
+theorem mapM_mem {α β} (f : α → Option β) : ∀ (l : List α) (ds : List β), l.mapM f = some ds →
+    ∀ x ∈ l, ∃ d ∈ ds, f x = some d := by
+  intro l
+  induction l with
+  | nil => intro ds _ x hx; simp at hx
+  | cons a r ih =>
+    intro ds h x hx
+    rw [List.mapM_cons] at h
+    cases hfa : f a with
+    | none => simp [hfa] at h
+    | some da =>
+      cases hr : r.mapM f with
+      | none => simp [hfa, hr] at h
+      | some dr =>
+        simp [hfa, hr] at h
+        subst h
+        rcases List.mem_cons.1 hx with rfl | hx'
+        · exact ⟨da, List.mem_cons_self, hfa⟩
+        · obtain ⟨d, hd, hfd⟩ := ih dr hr x hx'
+          exact ⟨d, List.mem_cons_of_mem _ hd, hfd⟩
+
+theorem mangle_append (a b : Bytes) : mangle (a ++ b) = mangle a ++ mangle b := replaceByte_append _ _ _ _
+
+theorem mangle_uu : mangle uu = uu := by decide
+
+/-- the arm label written for a chain is the function name the walk computes for it -/
+theorem label_eq_fnOf (b : Bytes) (chain : List GNode) :
+    mangle (joinUu (b :: chain.map GNode.name)) = fnOf (mangle b) chain := by
+  induction chain generalizing b with
+  | nil => rfl
+  | cons c rest ih =>
+    simp only [List.map_cons, fnOf]
+    have := ih (b ++ uu ++ c.name)
+    rw [mangle_append, mangle_append, mangle_uu] at this
+    rw [← this]
+    cases rest with
+    | nil => simp [joinUu, mangle_append, mangle_uu]
+    | cons d r => simp [joinUu, mangle_append, mangle_uu, List.append_assoc]
+
+/-- no two arms of the `case "${cmd}"` dispatch carry the same label -/
+def LabelsDistinct (root : GNode) (ds : List Detail) : Prop :=
+  ∀ d1 ∈ ds, ∀ d2 ∈ ds, d1.label = d2.label → d1 = d2
+
+/-- **the script offers exactly the options and subcommands of the level the words address**:
+for a tree whose generator run does not panic, whose walk labels and arm labels are unambiguous, and a
+chain of subcommands (any depth) spelled by names or visible aliases whose names contain no `_` or space:
+with the cursor on the next word, not itself a complete child name, `COMPREPLY` is the level's word list
+filtered by the prefix. -/
+theorem bash_offers_level (root : GNode) (hroot : root.name ≠ []) (hu : Unambiguous (caseTable root))
+    (ds : List Detail) (hds : details root = some ds) (hld : LabelsDistinct root ds)
+    (chain : List GNode) (hne : chain ≠ []) (hch : Chain root chain) (ws : List Bytes) (hsp : Spells chain ws)
+    (hclean : ∀ n ∈ root.name :: chain.map GNode.name, 95 ∉ n ∧ 32 ∉ n) (hf : FoundByName root chain)
+    (hrootlab : ∀ d ∈ ds, d.label ≠ mangle root.name)
+    (cur prog : Bytes)
+    (hcur : ((caseTable root).find? fun t => t.1 == fnOf (mangle root.name) chain && t.2.1 == cur) = none) :
+    complete root (prog :: ws ++ [cur]) (ws.length + 1) =
+      some (.words ((levelWords (chain.getLastD root)).filter (startsWith cur))) := by
+  -- the walk
+  have hw : walk root (caseTable root) prog [] (prog :: ws ++ [cur]) = fnOf (mangle root.name) chain := by
+    have h1 := walk_reaches root hroot hu chain hch ws hsp prog
+    have hsplit : ∀ (cmd : Bytes) (xs : List Bytes), walk root (caseTable root) prog cmd (xs ++ [cur]) =
+        walk root (caseTable root) prog (walk root (caseTable root) prog cmd xs) [cur] := by
+      intro cmd xs
+      induction xs generalizing cmd with
+      | nil => rfl
+      | cons x r ih => simp only [List.cons_append, walk]; exact ih _
+    rw [show prog :: ws ++ [cur] = (prog :: ws) ++ [cur] by simp, hsplit, h1]
+    have hne' : (fnOf (mangle root.name) chain).isEmpty = false := by
+      cases chain with
+      | nil => exact absurd rfl hne
+      | cons c r =>
+        have : ∀ (b : Bytes) (l : List GNode), b ≠ [] → fnOf b l ≠ [] := by
+          intro b l; induction l generalizing b with
+          | nil => intro h; exact h
+          | cons x xs ih => intro _; exact ih _ (by simp [uu])
+        have := this (mangle root.name ++ uu ++ mangle c.name) r (by simp [uu])
+        simp only [fnOf]
+        cases hfn : fnOf (mangle root.name ++ uu ++ mangle c.name) r with
+        | nil => exact absurd hfn this
+        | cons _ _ => rfl
+    simp only [walk, hne', Bool.false_and, Bool.false_eq_true, ↓reduceIte, hcur]
+  -- the arm
+  obtain ⟨pre, c, rfl⟩ : ∃ pre c, chain = pre ++ [c] := ⟨chain.dropLast, chain.getLast hne, (List.dropLast_concat_getLast hne).symm⟩
+  have hent := allSubcommands_complete root.name root pre c hch
+  have hsc : spaceToUu (binOf root.name (pre ++ [c])) ∈
+      dedupAdj (sortBy bytesLt ((allSubcommands root.name root).map fun x => spaceToUu x.2)) := by
+    rw [mem_dedupAdj, mem_sortBy]
+    exact List.mem_map.2 ⟨_, hent, rfl⟩
+  unfold details at hds
+  obtain ⟨d, hd, hfd⟩ := mapM_mem _ _ ds hds _ hsc
+  have harm := arm_for_chain root (pre ++ [c]) hne hclean hf
+  rw [← binOf_joinSp] at harm
+  unfold detailFor at harm
+  rw [harm] at hfd
+  simp only [Option.some.injEq] at hfd
+  have hlabel : d.label = fnOf (mangle root.name) (pre ++ [c]) := by rw [← hfd, label_eq_fnOf]
+  unfold complete
+  rw [show details root = some ds from by unfold details; exact hds]
+  have hhd : (prog :: ws ++ [cur]).headD [] = prog := rfl
+  simp only [hhd, hw]
+  have hfind : ((({ label := mangle root.name, level := 1, words := levelWords root, valueOpts := root.valueOpts } : Detail) :: ds).find?
+      fun d' => d'.label == fnOf (mangle root.name) (pre ++ [c])) = some d := by
+    rw [List.find?_cons]
+    have hr : ((mangle root.name) == fnOf (mangle root.name) (pre ++ [c])) = false := by
+      have := hrootlab d hd
+      rw [hlabel] at this
+      simpa using fun e => this e.symm
+    simp only [hr]
+    cases hfd' : ds.find? fun d' => d'.label == fnOf (mangle root.name) (pre ++ [c]) with
+    | none =>
+      have := List.find?_eq_none.1 hfd' d hd
+      simp [hlabel] at this
+    | some d' =>
+      have hm := List.mem_of_find?_eq_some hfd'
+      have hk := List.find?_some hfd'
+      simp only [beq_iff_eq] at hk
+      rw [hld d' hm d hd (by rw [hk, hlabel])]
+  rw [hfind]
+  have hlev : d.level = ws.length + 1 := by
+    rw [← hfd]
+    have : ∀ (l : List GNode) (w : List Bytes), Spells l w → l.length = w.length := by
+      intro l; induction l with
+      | nil => intro w h; cases w <;> simp_all [Spells]
+      | cons x xs ih => intro w h; cases w with
+        | nil => simp [Spells] at h
+        | cons y ys => simp only [Spells] at h; simp [ih ys h.2]
+    simp [this _ _ hsp]
+  have hcw : (ws.length + 1 == d.level) = true := by simp [hlev]
+  have hcurget : (prog :: ws ++ [cur]).getD (ws.length + 1) [] = cur := by
+    simp [List.getD, List.getElem?_append_right]
+  simp only [hcw, Bool.or_true, ↓reduceIte, hcurget]
+  rw [← hfd]
+
+/-- non-vacuity of `bash_offers_level`: a two-level tree (hyphenated name, alias, options at every level)
+meets every hypothesis, and the conclusion is what evaluating the model gives -/
+def sample2 : GNode :=
+  .mk [112] [] [[45, 45, 114]] []
+    [.mk [115, 45, 99] [[97, 108]] [[45, 45, 120]] [] [.mk [108] [] [[45, 45, 121], [45, 122]] [] []], .mk [116] [] [] [] []]
+example : Unambiguous (caseTable sample2) := by
+  intro e1 h1 e2 h2; revert e2 h2; revert e1 h1; decide
+example : ∃ ds, details sample2 = some ds ∧ LabelsDistinct sample2 ds ∧ (∀ d ∈ ds, d.label ≠ mangle sample2.name) := by
+  refine ⟨_, rfl, ?_, ?_⟩
+  · intro d1 h1 d2 h2; revert d2 h2; revert d1 h1; decide
+  · decide
+example : complete sample2 [[112], [97, 108], [108], [45, 45]] 3 = some (.words [[45, 45, 121]]) := by decide
+
 /-! #### what goes wrong without that hypothesis (the listed finding) -/
 
 /-- sibling `a-b` next to a nested `a` → `b`: both are mangled to `prog__a__b` … -/
